@@ -15,6 +15,9 @@ import ALV.Lemmas.C11Hist
 import ALV.Lemmas.C11Sharp
 import ALV.Lemmas.C11Float
 import ALV.Lemmas.C11Call
+import ALV.Lemmas.C11LevFloat
+import ALV.Lemmas.C11Round4
+import ALV.Model.C11Apply
 import Mathlib.Tactic.Linarith
 import ALV.Common.Audit
 
@@ -693,6 +696,333 @@ theorem stableCall_iff_poles (numLo denLo : Int) (num den : List ℝ) (h : shift
 theorem stableCall_ignores_num (numLo numLo' denLo denLo' : Int) (num num' den : List ℝ) :
     stableCall numLo num denLo den = stableCall numLo' num' denLo' den := rfl
 
+
+/-! ### 11. round 4 — what the driver RUNS on binary64 is the generic loop at carrier `F64`
+
+Core `Float` is opaque to the kernel: nothing can be proved about the VALUE of a binary64 operation
+(not even `F64.ofBits x.bits = x`, which is moreover false for `-0.0` and for NaN payloads: the harness
+checks the round trip of bit patterns at run time, extra check `float-bits-roundtrip`).  What IS proved:
+the definitions the driver runs are instances of the carrier-generic definitions of sections 9 and 12,
+so that every law-free theorem holds of them verbatim, and the structural facts of the encoding. -/
+section F64Instance
+
+/-- **C11.11a** `parcorF64` / `parcorStableF64` / `parcorF64Mul` — the three runs reported per float
+case — are the generic loop `parcorFixedG` at carrier `F64` with `sq = F64.sqPow` (libm `pow(k, 2)`),
+its stability twin, and the model `parcorFixed` verbatim (`sq k = k * k`) at carrier `F64`. -/
+theorem f64_parcor_is_floatloop (num : List F64) :
+    parcorF64 num = parcorFixedG F64.sqPow num ∧
+    parcorStableF64 num = parcorStableFixedG F64.sqPow num ∧
+    parcorF64Mul num = parcorFixed num ∧
+    parcorF64Mul num = parcorFixedG (fun k => k * k) num :=
+  ⟨rfl, rfl, rfl, (parcorFixedG_mul num).symm⟩
+
+/-- **C11.11b** (C11.9c for what is run) the binary64 verdict is a function of the binary64 yields:
+`all(abs(k) < 1 …)` under `try/except ParCorError` = draining the generator. -/
+theorem f64_stable_eq_drained (den : List F64) :
+    parcorStableF64 den = (!(parcorF64 den).2 && (parcorF64 den).1.all absLt1) :=
+  floatloop_stable_eq_drained F64.sqPow den
+
+/-- **C11.11c** (C11.9b for what is run) if libm's `pow(k, 2)` agrees with the rounded product on
+every `k` the binary64 run yields, the run with `k * k` is the same run. -/
+theorem f64_pow_only_on_yields (num : List F64)
+    (h : ∀ k ∈ (parcorF64 num).1, F64.sqPow k = k * k) : parcorF64Mul num = parcorF64 num :=
+  floatloop_sq_only_on_yields F64.sqPow num h
+
+/-- **C11.11d** "ParCorError is raised only when …" in the float regime, ANY carrier and squaring
+function: the loop raises exactly when it has yielded a `k` with `1 - sq k = 0`. -/
+theorem floatloop_raised_iff {α : Type} [Add α] [Mul α] [Sub α] [Neg α] [Div α] [OfNat α 0]
+    [OfNat α 1] [DecidableEq α] (sq : α → α) (num : List α) :
+    (parcorFixedG sq num).2 = true ↔ ∃ k ∈ (parcorFixedG sq num).1, 1 - sq k = 0 := by
+  unfold parcorFixedG
+  exact ploopG_raised_iff sq _ _ _ _
+
+/-- … for what is run: `ParCorError` on binary64 iff a yielded `k` has `1 - pow(k, 2) == 0`. -/
+theorem f64_raised_iff (num : List F64) :
+    (parcorF64 num).2 = true ↔ ∃ k ∈ (parcorF64 num).1, 1 - F64.sqPow k = 0 :=
+  floatloop_raised_iff F64.sqPow num
+
+/-- **C11.11e** the encoding: the payload carries `F64.bits`, and two model values are equal exactly
+when their bit patterns are (bit-for-bit comparison = equality in the model). -/
+theorem f64_eq_iff_bits (x y : F64) : x = y ↔ x.bits = y.bits := by
+  constructor
+  · intro h; rw [h]
+  · intro h; cases x; cases y; simp only [F64.mk.injEq]; exact h
+
+/-- **C11.11f** the normalising injection changes zeros only: the stored pattern of a result is the
+IEEE pattern of the `Float`, or the result is the model's zero (`+0.0`); a `Float` that compares
+equal to `0.0` (so `-0.0` too) is stored as the model's zero. -/
+theorem f64_ofFloat_cases (x : Float) :
+    (F64.ofFloat x = 0 ∨ (F64.ofFloat x).bits = x.toBits) ∧
+    ((x == 0.0) = true → F64.ofFloat x = 0) := by
+  unfold F64.ofFloat
+  constructor
+  · split
+    · left; rfl
+    · right; rfl
+  · intro h; rw [if_pos h]; rfl
+
+/-- the input decoder `F64.ofBits` is that injection after `Float.ofBits` -/
+theorem f64_ofBits_cases (b : UInt64) :
+    F64.ofBits b = 0 ∨ (F64.ofBits b).bits = (Float.ofBits b).toBits :=
+  (f64_ofFloat_cases (Float.ofBits b)).1
+
+/-- **C11.11g** the operations of the carrier are the core `Float` operations (trusted to be IEEE-754
+binary64, see TRUSTED) followed by that injection; the order is the order of the `Float`s. -/
+theorem f64_ops (a b : F64) :
+    a + b = F64.ofFloat (a.toFloat + b.toFloat) ∧ a - b = F64.ofFloat (a.toFloat - b.toFloat) ∧
+    a * b = F64.ofFloat (a.toFloat * b.toFloat) ∧ a / b = F64.ofFloat (a.toFloat / b.toFloat) ∧
+    -a = F64.ofFloat (-a.toFloat) ∧ (a < b ↔ a.toFloat < b.toFloat) ∧
+    F64.sqPow a = F64.ofFloat (Float.pow a.toFloat 2.0) ∧ F64.isFinite a = a.toFloat.isFinite :=
+  ⟨rfl, rfl, rfl, rfl, rfl, Iff.rfl, rfl, rfl⟩
+
+end F64Instance
+
+/-! ### 12. round 4 — `levinson_durbin` in the float regime: the recursion parameterised by `sum`
+
+`levinsonG sum` is the recursion with `sum` for the builtin `sum` of `inner`; the driver runs it on `F64`
+with `sum = sumPyG F64.isFinite`, CPython ≥ 3.12's compensated (Neumaier) summation, and numerator and
+`error` are compared BIT FOR BIT with `levinson_durbin` on float autocorrelation data. -/
+section LevFloat
+variable {α : Type} [Add α] [Mul α] [Sub α] [Neg α] [Div α] [OfNat α 0] [OfNat α 1] [DecidableEq α]
+
+/-- **C11.12a** with the left fold for `sum`, the parameterised recursion is the model of section 6 —
+on every carrier that has the operations, no law needed (so also on `F64`: `levinsonF64Fold`). -/
+theorem levfloat_is_model (r : List α) (order : Nat) :
+    levinsonG lsum r order = levinson r order := levinsonG_lsum r order
+
+/-- **C11.12b** the twin over the EXACT operations is the model: over any field, CPython's compensated
+`sum` is the plain sum (the compensation term stays zero), whatever `isfinite` answers — hence the
+definition the driver runs on binary64, read over a field, is `levinson`. -/
+theorem levfloat_compensated_is_model (fin : K → Bool) [LT K] [DecidableLT K] (r : List K) (order : Nat) :
+    (∀ l : List K, sumPyG fin l = lsum l) ∧ levinsonG (sumPyG fin) r order = levinson r order :=
+  ⟨sumPyG_eq_lsum fin, levinsonG_sumPy fin r order⟩
+
+/-- … so every theorem of section 6 holds of it: filter = step-up of its reflection coefficients,
+`order` of them, `error = r₀ · Π (1 − k_m²)` in the words of the specification (`errorSpec`). -/
+theorem levfloat_compensated_error (fin : K → Bool) [LT K] [DecidableLT K] (r : List K) (order : Nat)
+    (a ks : List K) (e : K) (h : levinsonG (sumPyG fin) r order = some (a, e, ks)) :
+    a = stepUp ks ∧ ks.length = order ∧ e = errorSpec (r.headD 0) ks := by
+  rw [levinsonG_sumPy] at h
+  obtain ⟨h1, h2, h3⟩ := levinson_error r order a ks e h
+  exact ⟨h1, h2, by rw [h3, errorSpec_eq_prod]⟩
+
+/-- **C11.12c** what the driver runs: `levinsonF64` is `levinsonG` at carrier `F64` with the compensated
+sum, `levinsonF64Fold` is the model `levinson` verbatim at carrier `F64`. -/
+theorem f64_levinson_is_levfloat (r : List F64) (order : Nat) :
+    levinsonF64 r order = levinsonG (sumPyG F64.isFinite) r order ∧
+    levinsonF64Fold r order = levinson r order ∧
+    levinsonF64Fold r order = levinsonG lsum r order :=
+  ⟨rfl, rfl, (levinsonG_lsum r order).symm⟩
+
+/-- **C11.12d** shape of a result, any carrier and summation (no law): `order + 1` coefficients,
+`order` reflection coefficients, and the `error` attribute is `inner(A, A)` of the returned filter
+over the zero-extended data. -/
+theorem levfloat_shape (sum : List α → α) (r : List α) (order : Nat) (a ks : List α) (e : α)
+    (h : levinsonG sum r order = some (a, e, ks)) :
+    a.length = order + 1 ∧ ks.length = order ∧ e = innerG sum (extendAc r order) a a := by
+  unfold levinsonG at h
+  simp only [] at h
+  cases hl : levLoopG sum (extendAc r order) order ⟨[1], []⟩ with
+  | none => rw [hl] at h; cases h
+  | some s =>
+    rw [hl] at h
+    simp only [Option.some.injEq, Prod.mk.injEq] at h
+    obtain ⟨ha, he, hk⟩ := h
+    have := levLoopG_shape sum _ order _ s hl
+    simp only [List.length_cons, List.length_nil] at this
+    exact ⟨by rw [← ha]; omega, by rw [← hk]; omega, by rw [← he, ← ha]⟩
+
+/-- **C11.12e** when it raises, any carrier and summation (no law): `ParCorError` exactly when, after
+some `m < order` completed steps, `inner(B, B)` of the reversed filter is zero. -/
+theorem levfloat_raises_iff (sum : List α → α) (r : List α) (order : Nat) :
+    levinsonG sum r order = none ↔
+      ∃ m, m < order ∧ ∃ s, levLoopG sum (extendAc r order) m ⟨[1], []⟩ = some s ∧
+        innerG sum (extendAc r order) ((0 : α) :: s.a.reverse) ((0 : α) :: s.a.reverse) = 0 := by
+  unfold levinsonG
+  simp only []
+  constructor
+  · intro h
+    cases hl : levLoopG sum (extendAc r order) order ⟨[1], []⟩ with
+    | some s => rw [hl] at h; cases h
+    | none =>
+      obtain ⟨m, hm, s, h1, h2⟩ := (levLoopG_none_iff sum _ order _).mp hl
+      exact ⟨m, hm, s, h1, (levStepG_none_iff sum _ s).mp h2⟩
+  · rintro ⟨m, hm, s, h1, h2⟩
+    rw [(levLoopG_none_iff sum _ order _).mpr ⟨m, hm, s, h1, (levStepG_none_iff sum _ s).mpr h2⟩]
+
+end LevFloat
+
+/-! ### 13. round 4 — `error`, `ParCorError` of `levinson_durbin`, feedback, rebuilding at full strength -/
+
+/-- **C11.13a** the clause "error = r[0]·∏(1−k_m²)" in the words of the specification (`errorSpec`,
+which the driver reports on every `levinson` case): every order, any field, any `r`. -/
+theorem levinson_error_spec (r : List K) (order : Nat) (a ks : List K) (e : K)
+    (h : levinson r order = some (a, e, ks)) : e = errorSpec (r.headD 0) ks := by
+  rw [(levinson_error r order a ks e h).2.2, errorSpec_eq_prod]
+
+/-- `errorSpec` is the product formula -/
+theorem errorSpec_is_product (r0 : K) (ks : List K) :
+    errorSpec r0 ks = r0 * (ks.map (fun k => 1 - k * k)).prod := errorSpec_eq_prod r0 ks
+
+/-- **C11.13b** `levinson_durbin` raises `ParCorError` exactly when the prediction error
+`r₀ · Π (1 − k²)` of some completed prefix of the recursion (fewer than `order` steps) is zero — i.e.
+`r₀ = 0` or a reflection coefficient `±1` BEFORE the last step; a `k = ±1` at the last step returns
+normally with `error = 0`. -/
+theorem levinson_raises_iff (r : List K) (order : Nat) :
+    levinson r order = none ↔
+      ∃ m, m < order ∧ ∃ s, levLoop (extendAc r order) m ⟨[1], []⟩ = some s ∧
+        errorSpec (r.headD 0) s.ks = 0 := by
+  have key := levLoop_none_iff (extendAc r order) _ order _ (linv_init (extendAc r order))
+  rw [cf_extendAc_zero] at key
+  rw [← key]
+  unfold levinson
+  simp only []
+  cases levLoop (extendAc r order) order ⟨[1], []⟩ <;> simp
+
+/-- **C11.13c** the feedback test: `ValueError` exactly when the denominator (zeros compacted) does not
+have exactly one term; otherwise the loop of `parcorCoded` on that constant. -/
+theorem codedE_feedback_iff (den num : List K) :
+    parcorCodedE den num = none ↔ (stripZeros den).length ≠ 1 := by
+  unfold parcorCodedE
+  rcases stripZeros den with _ | ⟨d, _ | ⟨d', t⟩⟩ <;> simp
+
+theorem codedE_const (den num : List K) (d : K) (h : stripZeros den = [d]) :
+    parcorCodedE den num = some (parcorCoded d num) := by
+  unfold parcorCodedE; rw [h]
+
+/-- … and then (numerator leading coefficient = that constant) it is the specification -/
+theorem codedE_eq_spec (den num t : List K) (d : K) (hd : d ≠ 0) (h : stripZeros den = [d])
+    (hs : stripZeros num = d :: t) : parcorCodedE den num = some (parcorSpec num) := by
+  rw [codedE_const den num d h, coded_eq_spec d num t hd hs]
+
+/-- **C11.13d** rebuilding, NON-MONIC input, the code of /repo today: whenever `parcor` runs to its end
+on a filter with leading coefficient `g ≠ 0`, the step-up of the yielded coefficients (read backwards)
+is the monic normalisation, and `g` times it is THE SAME FILTER (zeros compacted). -/
+theorem stepup_stepdown_fixed (num t ks : List K) (g : K) (hg : g ≠ 0) (hs : stripZeros num = g :: t)
+    (h : parcorFixed num = (ks, false)) :
+    stepUp ks.reverse = monic (stripZeros num) ∧ scale g (stepUp ks.reverse) = stripZeros num := by
+  rw [fixed_eq_spec num t g hg hs] at h
+  have h1 := stepup_stepdown_spec num t ks g hg hs h
+  exact ⟨h1, by rw [h1, hs]; exact scale_monic g hg t⟩
+
+/-- **C11.13e** rebuilding through the CALL, Laurent-shifted input: for any `ZFilter(num, den)` (first
+entries at any powers `numLo`, `denLo`) on which `parcor` completes, with `f` the numerator after the
+constructor's shift: `f₀ ·` step-up of the yielded coefficients `=` `f` (zeros compacted). -/
+theorem call_roundtrip (numLo denLo : Int) (num den ks : List K)
+    (h : parcorCall numLo num denLo den = .ok ks false) :
+    scale ((causalPart (numLo - (denLo + (leadZeros den : Int))) num).headD 0) (stepUp ks.reverse)
+      = stripZeros (causalPart (numLo - (denLo + (leadZeros den : Int))) num) := by
+  unfold parcorCall at h
+  split at h
+  · cases h
+  · simp only [] at h
+    split at h
+    · cases h
+    · rename_i hne
+      split at h
+      · cases h
+      · simp only [CallRes.ok.injEq] at h
+        generalize causalPart (numLo - (denLo + (leadZeros den : Int))) num = f at h hne ⊢
+        cases f with
+        | nil => simp at hne
+        | cons g t =>
+          simp only [List.headD_cons] at hne ⊢
+          obtain ⟨t', ht'⟩ := stripZeros_head_ne g hne t
+          exact (stepup_stepdown_fixed (g :: t) t' ks g hne ht' (Prod.ext h.1 h.2)).2
+  · cases h
+
+/-- … and a common shift of numerator and denominator changes nothing of it -/
+theorem call_roundtrip_shifted (s numLo denLo : Int) (num den ks : List K)
+    (h : parcorCall (numLo + s) num (denLo + s) den = .ok ks false) :
+    scale ((causalPart (numLo - (denLo + (leadZeros den : Int))) num).headD 0) (stepUp ks.reverse)
+      = stripZeros (causalPart (numLo - (denLo + (leadZeros den : Int))) num) := by
+  rw [call_shift] at h
+  exact call_roundtrip numLo denLo num den ks h
+
+/-! ### 14. round 4 — the call expression: binding of the parameter, object kinds, WHEN it raises -/
+
+/-- **C11.14a** Python's binding of the one parameter succeeds exactly for one positional argument
+and no keyword, or no positional argument and the one keyword `p`. -/
+theorem bind1_some_iff {β : Type} (p : String) (args : List β) (kwargs : List (String × β)) (o : β) :
+    bind1 p args kwargs = some o ↔ (args = [o] ∧ kwargs = []) ∨ (args = [] ∧ kwargs = [(p, o)]) := by
+  unfold bind1
+  split
+  · simp
+  · rename_i k a
+    by_cases hk : k = p
+    · simp [hk]
+    · simp only [hk, if_false]
+      constructor
+      · intro h; cases h
+      · rintro (⟨h1, _⟩ | ⟨_, h2⟩)
+        · cases h1
+        · simp only [List.cons.injEq, Prod.mk.injEq, and_true] at h2
+          exact absurd h2.1 hk
+  · rename_i h1 h2
+    constructor
+    · intro h; cases h
+    · rintro (⟨ha, hk⟩ | ⟨ha, hk⟩)
+      · exact (h1 o ha hk).elim
+      · exact (h2 p o ha hk).elim
+
+/-- **C11.14b** positional = keyword: `parcor(o)` is `parcor(fir_filt=o)`, `parcor_stable(o)` is
+`parcor_stable(filt=o)`, for every kind of object. -/
+theorem apply_positional_eq_keyword (o : ArgObj K) :
+    parcorApply [o] [] = parcorApply [] [("fir_filt", o)] := rfl
+
+theorem stableApply_positional_eq_keyword {L : Type} [Field L] [LinearOrder L] [DecidableEq L]
+    (o : ArgObj L) : stableApply [o] [] = stableApply [] [("filt", o)] := rfl
+
+/-- **C11.14c** `parcor` is a generator function: the call expression itself raises ONLY the binding
+`TypeError`, and exactly when the binding fails; every other exception waits for the first `next()`. -/
+theorem parcorApply_atCall_iff (args : List (ArgObj K)) (kwargs : List (String × ArgObj K)) (e : Exc) :
+    parcorApply args kwargs = .atCall e ↔ e = .typeError ∧ bind1 "fir_filt" args kwargs = none := by
+  unfold parcorApply
+  generalize bind1 "fir_filt" args kwargs = b
+  rcases b with _ | (⟨nl, n, dl, d⟩ | _ | _ | _)
+  · simp only [ApplyRes.atCall.injEq, and_true]; exact eq_comm
+  · simp only []
+    cases parcorCall nl n dl d <;> simp
+  all_goals simp
+
+/-- **C11.14d** on a filter the call expression is the call of section 10 (drained); `ParCorError`
+comes only out of the loop, after a yielded `k² = 1`, whatever was passed and however. -/
+theorem parcorApply_filt (numLo denLo : Int) (num den : List K) :
+    parcorApply [ArgObj.filt numLo num denLo den] [] =
+      match parcorCall numLo num denLo den with
+      | .valueError => .atNext .valueError
+      | .zeroDiv => .atNext .zeroDivisionError
+      | .ok ks b => .gen ks b := rfl
+
+theorem parcorApply_parcorError_only_critical (args : List (ArgObj K))
+    (kwargs : List (String × ArgObj K)) (ks : List K)
+    (h : parcorApply args kwargs = .gen ks true) : ∃ k ∈ ks, k * k = 1 := by
+  unfold parcorApply at h
+  generalize bind1 "fir_filt" args kwargs = b at h
+  rcases b with _ | (⟨nl, n, dl, d⟩ | _ | _ | _)
+  · cases h
+  · simp only [] at h
+    cases hc : parcorCall nl n dl d with
+    | valueError => rw [hc] at h; cases h
+    | zeroDiv => rw [hc] at h; cases h
+    | ok ks' b =>
+      rw [hc] at h
+      simp only [ApplyRes.gen.injEq] at h
+      rw [h.1, h.2] at hc
+      exact call_parcorError_only_critical nl dl n d ks hc
+  all_goals cases h
+
+/-- **C11.14e** `parcor_stable(…)` on a filter, positional or keyword: `True` exactly when every root of
+the shifted denominator (complex) lies strictly inside the unit circle. -/
+theorem stableApply_iff_poles (numLo denLo : Int) (num den : List ℝ) (h : shiftedDen den ≠ []) :
+    stableApply [] [("filt", ArgObj.filt numLo num denLo den)] = .verdict true ↔
+      ∀ z : ℂ, evalC (shiftedDen den).reverse z = 0 → Complex.normSq z < 1 := by
+  rw [← stableCall_iff_poles numLo denLo num den h]
+  show (match stableCall numLo num denLo den with
+      | none => ApplyRes.atCall Exc.valueError
+      | some b => ApplyRes.verdict b) = _ ↔ _
+  cases stableCall numLo num denLo den <;> simp
+
 /-! ### non-vacuity -/
 example : parcorStableCoded ([2, -1] : List Rat) = false := by decide +kernel
 example : parcorStableSpec (fromPoles (3 : ℝ) [1/2, -3/4] [(0, 1/2), (3/5, 3/5)]) = true := by
@@ -761,6 +1091,39 @@ example : parcorCall 0 ([0, 1, 1/2] : List Rat) 0 [0, 2] = .ok [1/2] false := by
 example : parcorCall 0 ([1, 1/2] : List Rat) 0 [1, 1/2] = .valueError := by decide +kernel
 example : stableCall 0 ([2, 1] : List Rat) (-1) [1, 1/2] = some true := by decide +kernel
 example : stableCall 0 ([] : List Rat) 0 [0, 0] = none := by decide +kernel
+
+-- section 11-13 (round 4)
+example : parcorFixedG (fun k => k * k) ([3, 3/2, 1/2] : List Rat) = ([1/6, 3/7], false) := by decide +kernel
+example : parcorFixedG (fun k => k * k) ([2, 5, 2] : List Rat) = ([1], true) := by decide +kernel
+example : levinsonG (sumPyG (fun _ => true)) ([12, 6, 0, -3] : List Rat) 3
+    = some ([1, -5/8, 1/4, 1/8], 63/8, [-1/2, 1/3, 1/8]) := by decide +kernel
+example : errorSpec (12 : Rat) [-1/2, 1/3, 1/8] = 63/8 := by decide +kernel
+example : sumPyG (fun _ => true) ([1/3, -7, 1/2, 5] : List Rat) = -7/6 := by decide +kernel
+-- levinson_raises_iff: r₀ = 0 raises at once; k₁ = -1 raises at step 2; k₂ = ±1 at the LAST step returns, error 0
+example : levinson ([0, 1] : List Rat) 1 = none := by decide +kernel
+example : levinson ([1, 1, 1] : List Rat) 2 = none := by decide +kernel
+example : levinson ([1, 1] : List Rat) 1 = some ([1, -1], 0, [-1]) := by decide +kernel
+example : (levLoop (extendAc ([1, 1, 1] : List Rat) 2) 1 ⟨[1], []⟩).map (fun s => (s.a, s.ks))
+    = some ([1, -1], [-1]) ∧ errorSpec (1 : Rat) [-1] = 0 := by decide +kernel
+example : parcorCodedE ([2, 0] : List Rat) [2, 1] = some ([1/2], false) := by decide +kernel
+example : parcorCodedE ([1, 1/2] : List Rat) [1, 1/2] = none := by decide +kernel
+example : parcorFixed ([3, 3/2, 1/2] : List Rat) = ([1/6, 3/7], false) ∧
+    scale (3 : Rat) (stepUp [3/7, 1/6]) = [3, 3/2, 1/2] := by decide +kernel
+example : parcorCall (-2) ([0, 3, 3/2, 1/2] : List Rat) (-2) [0, 5] = .ok [1/6, 3/7] false ∧
+    causalPart ((-2 : Int) - ((-2 : Int) + ((leadZeros ([0, 5] : List Rat) : Nat) : Int))) ([0, 3, 3/2, 1/2] : List Rat)
+      = [3, 3/2, 1/2] := by decide +kernel
+
+-- section 14
+example : parcorApply [ArgObj.filt 0 ([2, 1] : List Rat) 0 [5]] [] = .gen [1/2] false := by decide +kernel
+example : parcorApply [] [("filt", ArgObj.filt 0 ([2, 1] : List Rat) 0 [5])] = .atCall .typeError := by
+  decide +kernel
+example : parcorApply [ArgObj.filt 0 ([1, 1/2] : List Rat) 0 [1, 1/2]] [] = .atNext .valueError := by
+  decide +kernel
+example : stableApply [] [("filt", ArgObj.filt 0 ([2, 1] : List Rat) (-1) [1, 1/2])] = .verdict true := by
+  decide +kernel
+example : stableApply [(ArgObj.rational : ArgObj Rat)] [] = .atCall .attributeError := by decide +kernel
+example : parcorApply [(ArgObj.rational : ArgObj Rat)] [] = .atNext .typeError := by decide +kernel
+example : parcorApply [ArgObj.filt 0 ([2, 5, 2] : List Rat) 0 [1]] [] = .gen [1] true := by decide +kernel
 
 end ALV.Props.C11
 
